@@ -253,6 +253,8 @@ class Check:
     def report(self, sig, replay_path, text):
         """Record one confirmed rejection of real behaviour."""
         k = self.match_known(sig)
+        if os.environ.get("VERIF_DEBUG"):
+            log("report: %s -> %s" % (sig, "known" if k is not None else "VIOLATION"))
         if k is not None:
             if not any(x[0] is k for x in self.known_seen):
                 self.known_seen.append((k, text))
